@@ -26,6 +26,55 @@ use crate::{
     void::Void,
 };
 
+// Typed accessors that turn an unexpected JSON shape into `BadJson` instead of a panic.
+
+pub(crate) fn as_str<'a>(v: &'a serde_json::Value, what: &str) -> Result<&'a str, StoryError> {
+    v.as_str()
+        .ok_or_else(|| StoryError::BadJson(format!("Expected a string for {what}, found: {v}")))
+}
+
+pub(crate) fn as_i32(v: &serde_json::Value, what: &str) -> Result<i32, StoryError> {
+    v.as_i64()
+        .and_then(|n| i32::try_from(n).ok())
+        .ok_or_else(|| {
+            StoryError::BadJson(format!("Expected a 32-bit integer for {what}, found: {v}"))
+        })
+}
+
+pub(crate) fn as_usize(v: &serde_json::Value, what: &str) -> Result<usize, StoryError> {
+    v.as_u64()
+        .and_then(|n| usize::try_from(n).ok())
+        .ok_or_else(|| {
+            StoryError::BadJson(format!(
+                "Expected a non-negative integer for {what}, found: {v}"
+            ))
+        })
+}
+
+pub(crate) fn as_array<'a>(
+    v: &'a serde_json::Value,
+    what: &str,
+) -> Result<&'a Vec<serde_json::Value>, StoryError> {
+    v.as_array()
+        .ok_or_else(|| StoryError::BadJson(format!("Expected an array for {what}, found: {v}")))
+}
+
+pub(crate) fn as_object<'a>(
+    v: &'a serde_json::Value,
+    what: &str,
+) -> Result<&'a Map<String, serde_json::Value>, StoryError> {
+    v.as_object()
+        .ok_or_else(|| StoryError::BadJson(format!("Expected an object for {what}, found: {v}")))
+}
+
+pub(crate) fn get_key<'a>(
+    obj: &'a Map<String, serde_json::Value>,
+    key: &str,
+) -> Result<&'a serde_json::Value, StoryError> {
+    obj.get(key)
+        .ok_or_else(|| StoryError::BadJson(format!("Missing key '{key}'")))
+}
+
 pub fn load_from_string(
     s: &str,
 ) -> Result<(i32, Rc<Container>, Rc<ListDefinitionsOrigin>), StoryError> {
@@ -34,15 +83,15 @@ pub fn load_from_string(
         Err(_) => return Err(StoryError::BadJson("Story not in JSON format.".to_owned())),
     };
 
-    let version_opt = json.get("inkVersion");
-
-    if version_opt.is_none() || !version_opt.unwrap().is_number() {
-        return Err(StoryError::BadJson(
-            "ink version number not found. Are you sure it's a valid .ink.json file?".to_owned(),
-        ));
-    }
-
-    let version: i32 = version_opt.unwrap().as_i64().unwrap().try_into().unwrap();
+    let version: i32 = match json.get("inkVersion") {
+        Some(v) if v.is_number() => as_i32(v, "inkVersion")?,
+        _ => {
+            return Err(StoryError::BadJson(
+                "ink version number not found. Are you sure it's a valid .ink.json file?"
+                    .to_owned(),
+            ));
+        }
+    };
 
     if version > INK_VERSION_CURRENT {
         return Err(StoryError::BadJson(
@@ -97,10 +146,13 @@ pub fn jtoken_to_runtime_object(
         serde_json::Value::Bool(value) => Ok(Rc::new(Value::new::<bool>(value.to_owned()))),
         serde_json::Value::Number(_) => {
             if token.is_i64() {
-                let val: i32 = token.as_i64().unwrap().try_into().unwrap();
+                let val: i32 = as_i32(token, "an integer value")?;
                 Ok(Rc::new(Value::new::<i32>(val)))
             } else {
-                let val: f32 = token.as_f64().unwrap() as f32;
+                let val: f32 = token
+                    .as_f64()
+                    .ok_or_else(|| StoryError::BadJson(format!("Number out of range: {token}")))?
+                    as f32;
                 Ok(Rc::new(Value::new::<f32>(val)))
             }
         }
@@ -109,7 +161,14 @@ pub fn jtoken_to_runtime_object(
             let str = value.as_str();
 
             // String value
-            let first_char = str.chars().next().unwrap();
+            let first_char = match str.chars().next() {
+                Some(c) => c,
+                None => {
+                    return Err(StoryError::BadJson(
+                        "Failed to convert token to runtime RTObject: empty string".to_owned(),
+                    ));
+                }
+            };
             if first_char == '^' {
                 return Ok(Rc::new(Value::new::<&str>(&str[1..])));
             } else if first_char == '\n' && str.len() == 1 {
@@ -154,7 +213,7 @@ pub fn jtoken_to_runtime_object(
 
             if let Some(prop_value) = prop_value {
                 return Ok(Rc::new(Value::new::<Path>(
-                    Path::new_with_components_string(prop_value.as_str()),
+                    Path::new_with_components_string(Some(as_str(prop_value, "^->")?)),
                 )));
             }
 
@@ -162,12 +221,12 @@ pub fn jtoken_to_runtime_object(
             let prop_value = obj.get("^var");
 
             if let Some(v) = prop_value {
-                let variable_name = v.as_str().unwrap();
+                let variable_name = as_str(v, "^var")?;
                 let mut contex_index = -1;
                 let prop_value = obj.get("ci");
 
                 if let Some(v) = prop_value {
-                    contex_index = v.as_i64().unwrap() as i32;
+                    contex_index = as_i32(v, "ci")?;
                 }
 
                 let var_ptr = Rc::new(Value::new_variable_pointer(variable_name, contex_index));
@@ -209,7 +268,10 @@ pub fn jtoken_to_runtime_object(
             }
 
             if is_divert {
-                let target = prop_value.unwrap().as_str().unwrap().to_string();
+                let target = match prop_value {
+                    Some(v) => as_str(v, "a divert target")?.to_string(),
+                    None => return Err(StoryError::BadJson("Divert without target".to_owned())),
+                };
 
                 let mut var_divert_name: Option<String> = None;
                 let mut target_path: Option<String> = None;
@@ -229,7 +291,7 @@ pub fn jtoken_to_runtime_object(
                 if external {
                     prop_value = obj.get("exArgs");
                     if let Some(prop_value) = prop_value {
-                        external_args = prop_value.as_i64().unwrap() as usize;
+                        external_args = as_usize(prop_value, "exArgs")?;
                     }
                 }
 
@@ -248,29 +310,26 @@ pub fn jtoken_to_runtime_object(
             let prop_value = obj.get("*");
             if let Some(cp) = prop_value {
                 let mut flags = 0;
-                let path_string_on_choice = cp.as_str().unwrap();
+                let path_string_on_choice = as_str(cp, "a choice target")?;
                 let prop_value = obj.get("flg");
                 if let Some(f) = prop_value {
-                    flags = f.as_u64().unwrap();
+                    flags = as_i32(f, "flg")?;
                 }
 
-                return Ok(Rc::new(ChoicePoint::new(
-                    flags as i32,
-                    path_string_on_choice,
-                )));
+                return Ok(Rc::new(ChoicePoint::new(flags, path_string_on_choice)));
             }
 
             // // Variable reference
             let prop_value = obj.get("VAR?");
             if let Some(name) = prop_value {
-                return Ok(Rc::new(VariableReference::new(name.as_str().unwrap())));
+                return Ok(Rc::new(VariableReference::new(as_str(name, "VAR?")?)));
             }
 
             let prop_value = obj.get("CNT?");
             if let Some(v) = prop_value {
-                return Ok(Rc::new(VariableReference::from_path_for_count(
-                    v.as_str().unwrap(),
-                )));
+                return Ok(Rc::new(VariableReference::from_path_for_count(as_str(
+                    v, "CNT?",
+                )?)));
             }
 
             // // Variable assignment
@@ -293,7 +352,10 @@ pub fn jtoken_to_runtime_object(
             }
 
             if is_var_ass {
-                let var_name = prop_value.unwrap().as_str().unwrap();
+                let var_name = match prop_value {
+                    Some(v) => as_str(v, "a variable name")?,
+                    None => return Err(StoryError::BadJson("Assignment without name".to_owned())),
+                };
                 let prop_value = obj.get("re");
                 let is_new_decl = prop_value.is_none();
 
@@ -308,32 +370,32 @@ pub fn jtoken_to_runtime_object(
             // Legacy Tag
             prop_value = obj.get("#");
             if let Some(prop_value) = prop_value {
-                return Ok(Rc::new(Tag::new(prop_value.as_str().unwrap())));
+                return Ok(Rc::new(Tag::new(as_str(prop_value, "#")?)));
             }
 
             // List value
             prop_value = obj.get("list");
 
             if let Some(pv) = prop_value {
-                let list_content = pv.as_object().unwrap();
+                let list_content = as_object(pv, "list")?;
                 let mut raw_list = InkList::new();
 
                 prop_value = obj.get("origins");
 
                 if let Some(o) = prop_value {
-                    let names_as_objs = o.as_array().unwrap();
+                    let names_as_objs = as_array(o, "origins")?;
 
-                    let names = names_as_objs
-                        .iter()
-                        .map(|e| e.as_str().unwrap().to_string())
-                        .collect();
+                    let mut names = Vec::with_capacity(names_as_objs.len());
+                    for e in names_as_objs {
+                        names.push(as_str(e, "an origin name")?.to_string());
+                    }
 
                     raw_list.set_initial_origin_names(names);
                 }
 
                 for (k, v) in list_content {
                     let item = InkListItem::from_full_name(k);
-                    raw_list.items.insert(item, v.as_i64().unwrap() as i32);
+                    raw_list.items.insert(item, as_i32(v, "a list item value")?);
                 }
 
                 return Ok(Rc::new(Value::new::<InkList>(raw_list)));
@@ -360,7 +422,14 @@ fn jarray_to_container(
     //  - named content
     //  - a "#f" key with the countFlags
     // (if either exists at all, otherwise null)
-    let terminating_obj = jarray[jarray.len() - 1].as_object();
+    let terminating_obj = match jarray.last() {
+        Some(last) => last.as_object(),
+        None => {
+            return Err(StoryError::BadJson(
+                "A container array needs at least its terminating element".to_owned(),
+            ));
+        }
+    };
     let mut name: Option<String> = name;
     let mut flags = 0;
 
@@ -369,16 +438,17 @@ fn jarray_to_container(
     if let Some(terminating_obj) = terminating_obj {
         for (k, v) in terminating_obj {
             match k.as_str() {
-                "#f" => flags = v.as_i64().unwrap().try_into().unwrap(),
-                "#n" => name = Some(v.as_str().unwrap().to_string()),
+                "#f" => flags = as_i32(v, "#f")?,
+                "#n" => name = Some(as_str(v, "#n")?.to_string()),
                 k => {
-                    let named_content_item =
-                        jtoken_to_runtime_object(v, Some(k.to_string())).unwrap();
+                    let named_content_item = jtoken_to_runtime_object(v, Some(k.to_string()))?;
 
                     let named_sub_container = named_content_item
                         .into_any()
                         .downcast::<Container>()
-                        .unwrap();
+                        .map_err(|_| {
+                            StoryError::BadJson(format!("Named content '{k}' is not a container"))
+                        })?;
 
                     named_only_content.insert(k.to_string(), named_sub_container);
                 }
@@ -402,7 +472,7 @@ pub fn jarray_to_runtime_obj_list(
     let mut count = jarray.len();
 
     if skip_last {
-        count -= 1;
+        count = count.saturating_sub(1);
     }
 
     let mut list: Vec<Rc<dyn RTObject>> = Vec::with_capacity(jarray.len());
@@ -416,12 +486,13 @@ pub fn jarray_to_runtime_obj_list(
 }
 
 fn jobject_to_choice(obj: &Map<String, serde_json::Value>) -> Result<Rc<dyn RTObject>, StoryError> {
-    let text = obj.get("text").unwrap().as_str().unwrap();
-    let index = obj.get("index").unwrap().as_u64().unwrap() as usize;
-    let source_path = obj.get("originalChoicePath").unwrap().as_str().unwrap();
-    let original_thread_index = obj.get("originalThreadIndex").unwrap().as_i64().unwrap() as usize;
-    let path_string_on_choice = obj.get("targetPath").unwrap().as_str().unwrap();
-    let choice_tags = jarray_to_tags(obj);
+    let text = as_str(get_key(obj, "text")?, "text")?;
+    let index = as_usize(get_key(obj, "index")?, "index")?;
+    let source_path = as_str(get_key(obj, "originalChoicePath")?, "originalChoicePath")?;
+    let original_thread_index =
+        as_usize(get_key(obj, "originalThreadIndex")?, "originalThreadIndex")?;
+    let path_string_on_choice = as_str(get_key(obj, "targetPath")?, "targetPath")?;
+    let choice_tags = jarray_to_tags(obj)?;
 
     Ok(Rc::new(Choice::new_from_json(
         path_string_on_choice,
@@ -433,18 +504,18 @@ fn jobject_to_choice(obj: &Map<String, serde_json::Value>) -> Result<Rc<dyn RTOb
     )))
 }
 
-fn jarray_to_tags(obj: &Map<String, serde_json::Value>) -> Vec<String> {
+fn jarray_to_tags(obj: &Map<String, serde_json::Value>) -> Result<Vec<String>, StoryError> {
     let mut tags: Vec<String> = Vec::new();
 
     let prop_value = obj.get("tags");
     if let Some(pv) = prop_value {
-        let tags_array = pv.as_array().unwrap();
+        let tags_array = as_array(pv, "tags")?;
         for tag in tags_array {
-            tags.push(tag.as_str().unwrap().to_string());
+            tags.push(as_str(tag, "a tag")?.to_string());
         }
     }
 
-    tags
+    Ok(tags)
 }
 
 pub fn jtoken_to_list_definitions(
@@ -452,11 +523,11 @@ pub fn jtoken_to_list_definitions(
 ) -> Result<ListDefinitionsOrigin, StoryError> {
     let mut all_defs: Vec<ListDefinition> = Vec::with_capacity(0);
 
-    for (name, list_def_json) in def.as_object().unwrap() {
+    for (name, list_def_json) in as_object(def, "listDefs")? {
         // Cast (string, object) to (string, int) for items
         let mut items: HashMap<String, i32> = HashMap::new();
-        for (k, v) in list_def_json.as_object().unwrap() {
-            items.insert(k.clone(), v.as_u64().unwrap() as i32);
+        for (k, v) in as_object(list_def_json, "a list definition")? {
+            items.insert(k.clone(), as_i32(v, "a list item value")?);
         }
 
         let def = ListDefinition::new(name.clone(), items);
@@ -477,7 +548,7 @@ pub(crate) fn jobject_to_hashmap_values(
             jtoken_to_runtime_object(v, None)?
                 .into_any()
                 .downcast::<Value>()
-                .unwrap(),
+                .map_err(|_| StoryError::BadJson(format!("'{k}' is not a value")))?,
         );
     }
 
@@ -490,7 +561,7 @@ pub(crate) fn jobject_to_int_hashmap(
     let mut dict: HashMap<String, i32> = HashMap::new();
 
     for (k, v) in jobj.iter() {
-        dict.insert(k.clone(), v.as_i64().unwrap() as i32);
+        dict.insert(k.clone(), as_i32(v, k)?);
     }
 
     Ok(dict)
